@@ -31,6 +31,9 @@ struct Mon {
     /// when a lost packet (a NAK) was last fed to this link; loss average of the previous snapshot
     last_loss_fed: Option<u64>,
     prev_loss: Option<f64>,
+    /// controller tier: what the harness fed per tick - (time, lost / max(1, bytes / 1316) capped at 1, counters
+    /// were reset in this tick)
+    fed: Vec<(u64, f64, bool)>,
 }
 
 /// Check one tick's snapshot against the previous one. `observed` is the
@@ -336,8 +339,13 @@ pub fn check_ctl(case: &CtlCase, obs: &mut Obs) -> CheckResult {
         now += DTS[*dt as usize % DTS.len()];
         let mut present: Vec<usize> = Vec::new();
         let mut observed: BTreeMap<u64, u64> = BTreeMap::new();
+        let mut fed_now: BTreeMap<u64, (f64, bool)> = BTreeMap::new();
         for (i, li) in ins.iter().enumerate() {
             let c = &mut links[i];
+            fed_now.insert(
+                c.conn_id,
+                (if li.naks == 0 { 0.0 } else { (li.naks as f64 / ((li.bytes as u64 / 1316).max(1)) as f64).min(1.0) }, li.reconnect || li.down || !c.connected),
+            );
             if li.reconnect {
                 c.reset_for_reconnect(now);
                 apply_reg3(c, now);
@@ -395,6 +403,38 @@ pub fn check_ctl(case: &CtlCase, obs: &mut Obs) -> CheckResult {
             let m = mons.entry(c.conn_id).or_default();
             if c.get_smooth_rtt_ms() > 0.0 {
                 m.rtt_fed = true;
+            }
+            // honest loss average: it is an average of 1 s windows of what was fed, so it can never exceed both its
+            // previous value and the worst per-tick loss fraction fed inside the window. Not judged while a tick in
+            // (or just before) the window reset the link's counters: the controller re-anchors there.
+            if let Some((ratio, reset)) = fed_now.get(&c.conn_id) {
+                m.fed.push((now, *ratio, *reset));
+            }
+            let horizon = now.saturating_sub(1_000);
+            let first_in = m.fed.iter().position(|f| f.0 >= horizon).unwrap_or(m.fed.len());
+            let from = first_in.saturating_sub(2);
+            let recent = &m.fed[from..];
+            if let Some(pl) = m.prev_loss
+                && !recent.iter().any(|f| f.2)
+                && m.fed.len() >= 3
+            {
+                let worst = recent.iter().map(|f| f.1).fold(0.0f64, f64::max);
+                vensure!(
+                    s.loss_ewma <= pl.max(worst) + 1e-9,
+                    "loss-average-above-what-was-fed",
+                    "tick {ti} link {}: loss average {} exceeds both its previous value {} and the worst loss fraction fed in the window ({}; per tick: {:?})",
+                    c.conn_id & 0xf,
+                    s.loss_ewma,
+                    pl,
+                    worst,
+                    recent.iter().map(|f| f.1).collect::<Vec<_>>()
+                );
+                if worst > 0.0 && s.loss_ewma > pl {
+                    obs.class("loss-average-rose-within-the-fed-bound");
+                }
+            }
+            if m.fed.len() > 64 {
+                m.fed.drain(..32);
             }
             monitor(m, s, observed[&c.conn_id], now, &format!("tick {ti} link {}", c.conn_id & 0xf))?;
         }
